@@ -45,7 +45,7 @@ def one_case(rng, tier):
         return {'prog': prog, 'inputs': xg.inputs(prog), 'mode': 'async' if rng.random() < 0.5 else 'plain', 'exotic': True}
     if rng.random() < 0.3:
         from .. import aprogs
-        g = aprogs.AGen(rng, async_ops=aprogs.LOSSLESS_ASYNC + ['timed_window_unique'], max_nodes=7)
+        g = aprogs.AGen(rng, async_ops=aprogs.LOSSLESS_ASYNC + ['timed_window_unique', 'latest'], max_nodes=7)
         prog = g.program(min_async=1)
         return {'family': 'async', 'prog': prog, 'producers': g.producers(prog, max_total=18, n_md=(0, 1, 1, 2)),
                 'awaiting': rng.random() < 0.6, 'inputs': [], 'mode': 'vloop'}
